@@ -1,7 +1,7 @@
 """Shared by C04 / C05 / C06 (market stage M1: swap, deposit, withdrawal).
 Spec: Market.tla (precise actions), MarketProps.tla (monitors), MC_Market (bounded models),
 Trace_Market (trace validation); driver: harness/h-model/src/bin/c04.rs."""
-import json, os, threading
+import json, os
 from concurrent.futures import ThreadPoolExecutor
 import vlib
 
@@ -129,13 +129,12 @@ def validate(ctx, trace, mon, cfg="Trace_Market"):
             p = "%s.part%d.ndjson" % (base, k)
             vlib.write_ndjson(p, ev[a:b])
             parts.append(p)
-    lock = threading.Lock()
-
     def one(p):
-        # ctx bookkeeping is not thread safe: serialise everything except the TLC process itself
+        # ctx bookkeeping is not thread safe: only the TLC process itself runs in the pool
         mp, cp = ctx.spec("Trace_Market.tla"), ctx.spec(cfg + ".cfg")
-        r = vlib.tlc(mp, cp, workers=1, timeout=1800, env={"TRACE": p, "MON": mon}, heap="4g")
-        return r
+        # own metadir per process (vlib's default name is per millisecond, not unique across threads)
+        meta = os.path.join(ctx.wd, "meta-" + os.path.basename(p))
+        return vlib.tlc(mp, cp, workers=1, timeout=1800, env={"TRACE": p, "MON": mon}, heap="4g", metadir=meta)
 
     with ThreadPoolExecutor(max_workers=PAR) as ex:
         results = list(ex.map(one, parts))
